@@ -39,6 +39,18 @@ CHECKS = {
  'C09': ('model-based property testing: every node location of generated documents (pointer identity for reads, whole-document model comparison for writes), derived non-existent locations, and generated write histories against an in-memory model; known finding K3 attributed by model',
          'For every node of documents with JSON-Pointer-hostile and escape-needing member names, reference(normalized path) must return that node by address and a write through reference_mut must equal the model (replace the subtree, nothing else); locations that do not exist (index = len, numeric name on an array, index on an object, a/b and ~1 confusions, steps below scalars) must give None and leave the document unchanged; histories of up to 6 writes through the paths of one query are replayed against the model step by step. Exploration only.',
          'Trusted: normalized_path(), the replacement model, pointer identity.', 'DESIGN.md section 4 C09'),
+ 'C12': ('property-based testing of agreement and purity: entry points compared position by position, generated evaluation histories against a fresh-process reference, generated multi-thread schedules against the sequential result, compile-time Send/Sync assertion',
+         'Random pairs run through query, query_only_path, query_with_path and js_path_process(parse(q)) (twice) and must agree by address and path with the document unchanged; histories of 8-40 evaluations over colliding documents and queries must equal, step by step, the same pair evaluated first in a fresh process; 2-16 threads share parsed queries and documents behind a barrier and must reproduce the sequential results; a separate crate asserts Send + Sync + Clone at compile time. Exploration only; thread interleavings are sampled by stress, not enumerated.',
+         'Trusted: fresh process = no history. A data race that needs a rare interleaving can be missed (stated in the evidence).', 'DESIGN.md section 4 C12'),
+ 'C13': ('metamorphic property-based testing: one abstract query re-rendered in independently chosen equivalent spellings, results compared by node address; differences attributed through the reference evaluator to open findings only',
+         'Each generated query is rendered in 4-6 further spellings (.name / [\'name\'] / ["name"], .* / [*], ?e / ?(e) / redundant or dropped parentheses, optional second slice colon, blanks from all four characters at every S position, integer / fraction / exponent spellings, separately: escape spellings) and all must select the same nodes in the same order on the same document. Exploration only.',
+         'Trusted: the re-spelling transformations in harness/src/spell.rs preserve meaning under RFC 9535 (the C06 recogniser reads every rendering back to the same AST).', 'DESIGN.md section 4 C13'),
+ 'C14': ('property-based testing against a set-semantics reference with structural equality; complement laws asserted on the library\'s own answers',
+         'Generated lists of arbitrary JSON values (nested, empty, duplicates), sub-multisets, near-subsets, non-arrays and missing arguments are fed to the five documented extension functions through every argument form (@.k, @, @[0], literal; $.l, $.m.n, @.own); kept elements must equal the set-semantics oracle, in/nin and any_of/none_of must be complements where the arguments are well-formed, and no call may return Err. Exploration only.',
+         'Trusted: oracle::extension() transcribes the property statement; numbers are small integers only.', 'DESIGN.md section 4 C14'),
+ 'C15': ('differential property-based testing across three Queryable implementations (serde_json::Value and two differently represented harness types), plus reference-evaluator comparison on shuffled member orders',
+         'The whole query generator (selectors, filters, comparisons, RFC functions) runs on the same document viewed as Value, as V1 (insertion-ordered members, Int/Float variants answering only their own accessor, non-null Default) and as V2 (f64 numbers, sorted map, content-free Debug, as_i64 always None): paths and values must agree position by position; with shuffled member order the result must be the RFC nodelist in that view\'s order and object equality must not depend on member order. Exploration only.',
+         'Trusted: the harness types implement the trait faithfully (get strips enclosing quotes like the reference implementation); plain member names.', 'DESIGN.md section 4 C15'),
 }
 NOT_YET = 'check under construction in this session (designed in DESIGN.md section 4); not yet registered'
 
